@@ -1,10 +1,11 @@
 import Skglm.Spec.Penalties
 import Skglm.Proofs.Prox
 import Skglm.Proofs.BlockProx
+import Skglm.Proofs.ProxScad
 /-
   C07 — proximal operators return a global minimiser of the prox objective.
 
-  Statements only; the lemmas are in `Skglm/Proofs/Prox.lean`.
+  Statements only; the lemmas are in `Skglm/Proofs/Prox.lean`, `BlockProx.lean` and `ProxScad.lean`.
   `Spec.ProxLe p wt x s u v` : `u` is at least as good as `v` for `½(·-x)² + s·pen(·)`, where `pen`
   is the documented penalty with the configured positivity / box constraint as an indicator.
 -/
@@ -32,6 +33,26 @@ theorem prox_mcp (a g : ℝ) (pos : Bool) (wt x s : ℝ) (h : Admissible (.mcp a
 theorem prox_wmcp (a g : ℝ) (pos : Bool) (wt x s : ℝ) (h : Admissible (.wmcp a g pos) wt s) (v : ℝ) :
     ProxLe (.wmcp a g pos) wt x s ((SepPen.wmcp a g pos).prox1 wt x s) v :=
   Proofs.prox_wmcp a g pos wt x s h v
+
+/-- SCAD inside its documented range (`γ > 2`, `s < γ - 1`): the best of the code's three candidates
+    is a global minimiser of `v ↦ ½(v - x)² + s·scad(v)` over ℝ -/
+theorem prox_scad (a g : ℝ) (wt x s : ℝ) (h : Admissible (.scad a g) wt s) (v : ℝ) :
+    ProxLe (.scad a g) wt x s ((SepPen.scad a g).prox1 wt x s) v := Proofs.prox_scad a g wt x s h v
+
+/-- SCAD, exact range: the step bound `s < γ - 1` and `γ > 2` are *not* needed.  Because the code
+    compares its three candidates on the true objective, the returned value is a global minimiser
+    for every step `s > 0`, every `a ≥ 0` and every `γ ≥ 1` (for `γ - 1 ≤ s` the objective is concave
+    on `[a, aγ]` and the minimiser is `x₁` or `x₃`; the candidate `x₂` is then harmless, at
+    `s = γ - 1` under the model's `t / 0 = 0`). -/
+theorem prox_scad_any_step (a g : ℝ) (wt x s : ℝ) (hs : 0 < s) (ha : 0 ≤ a) (hg : 1 ≤ g) (v : ℝ) :
+    ProxLe (.scad a g) wt x s ((SepPen.scad a g).prox1 wt x s) v :=
+  Proofs.prox_scad_of a g wt x s hs ha hg v
+
+/-- the range `γ ≥ 1` of SCAD is sharp: for `γ < 1` the returned value is *not* a minimiser
+    (`a = 1, γ = 1/2, x = 1, s = 1/4`: returns `3/4`, objective `7/32`; `v = 9/8` has `25/128`) -/
+theorem prox_scad_range_sharp :
+    ∃ a g x s v : ℝ, 0 < s ∧ 0 ≤ a ∧ g < 1 ∧
+      ¬ ProxLe (.scad a g) 1 x s ((SepPen.scad a g).prox1 1 x s) v := Proofs.prox_scad_range_sharp
 
 /-- box indicator: projection onto `[0, a]` -/
 theorem prox_box (a : ℝ) (wt x s : ℝ) (h : Admissible (.box a) wt s) (v : ℝ) :
@@ -81,6 +102,19 @@ theorem prox_block_mcp {k : Nat} (a g s : ℝ) (wf x v : Fin k → ℝ) (ha : 0 
     let r := (BlkPen.bmcp a g).proxBlk 1 wf x s
     Proofs.halfSq x r + s * Spec.mcp a g (norm2 r) ≤ Proofs.halfSq x v + s * Spec.mcp a g (norm2 v) :=
   Proofs.prox_bmcp a g s wf x v ha hg hs hsg
+
+/-- block SCAD (radial reduction to `prox_SCAD` on the norm), zero row included; same exact range
+    as the scalar case: every step `s > 0`, `a ≥ 0`, `γ ≥ 1` (in particular `γ > 2`, `s < γ - 1`) -/
+theorem prox_block_scad {k : Nat} (a g s : ℝ) (wf x v : Fin k → ℝ) (ha : 0 ≤ a) (hg : 1 ≤ g) (hs : 0 < s) :
+    let r := (BlkPen.bscad a g).proxBlk 1 wf x s
+    Proofs.halfSq x r + s * Spec.scad a g (norm2 r) ≤ Proofs.halfSq x v + s * Spec.scad a g (norm2 v) :=
+  Proofs.prox_bscad a g s wf x v ha hg hs
+
+/-- non-vacuity: a concrete admissible SCAD configuration where the *middle* candidate wins -/
+example : Admissible (.scad (1:ℝ) 3) 1 1 ∧ (SepPen.scad (1:ℝ) 3).prox1 1 (5 / 2) 1 = 2 := by
+  constructor
+  · simp [Admissible]; norm_num
+  · simp [SepPen.prox1, prox_SCAD, pen_SCAD, sabs_eq, smax_eq, sgn]; norm_num
 
 /-- non-vacuity: a concrete admissible MCP configuration with a non-trivial prox value -/
 example : Admissible (.mcp (1:ℝ) 3 false) 1 1 ∧ (SepPen.mcp (1:ℝ) 3 false).prox1 1 2 1 = 3 / 2 := by
